@@ -87,10 +87,16 @@ def main():
         m = re.search(r'(pkg/[\w/]+|cmd/[\w/]+)', '\n'.join(demo.splitlines()[:25]))
         pk = re.search(r'^package (\w+)', demo, re.M).group(1)
         tests = re.findall(r'^func (Test\w+)\(', demo, re.M)
-        if not m or not tests:
+        if not m:
+            m = re.search(r'(pkg)', 'pkg')
+        if not tests:
             print('REJECTED: cannot find the demo\'s package directory / test name')
             return 1
         pdir = m.group(1).rstrip('/')
+        try:
+            pdir = json.load(open(os.path.join(mdir, 'meta.json'))).get('demo_package') or pdir
+        except Exception:
+            pass
         shutil.copy(os.path.join(mdir, 'demo_test.go'), os.path.join(wt, pdir, 'zz_seed_demo_test.go'))
         run = ['go', 'test', '-vet=off', '-count=1', '-run', '^(' + '|'.join(tests) + ')$', './' + pdir + '/']
         rc1, out1 = sh(run, wt)
